@@ -1,5 +1,5 @@
 """Orchestration core: TLC runs, harness runs, evidence, findings.  Python stdlib only."""
-import json, os, re, shutil, subprocess, sys, time, hashlib
+import json, os, re, shutil, subprocess, sys, time, hashlib, glob
 
 VERIF = os.path.dirname(os.path.dirname(os.path.abspath(__file__)))
 SPEC = os.path.join(VERIF, "spec")
@@ -28,6 +28,8 @@ class Ctx:
     def __init__(self, prop, tier, seed, level="model_checking"):
         self.prop, self.tier, self.seed, self.level = prop, tier, seed, level
         self.t0 = time.time()
+        for old in glob.glob(os.path.join(VERIF, "replays", "%s-%s-*" % (prop, tier))):
+            os.remove(old)
         self.work = os.path.join(VERIF, "work", prop)
         shutil.rmtree(self.work, ignore_errors=True)
         os.makedirs(self.work, exist_ok=True)
@@ -225,7 +227,13 @@ class Ctx:
         return ok
 
     # ------------------------------------------------------------------ results
+    UB_PATTERNS = ("unsafe precondition", "process abort", "with overflow", "attempt to ", "loops)", "did not return")
+
     def violation(self, detail, case=None, cmd=None, mode=None, sig=None):
+        if getattr(self, "ub_only", False) and not any(p in detail for p in self.UB_PATTERNS):
+            # C20 only concerns undefined behaviour; functional disagreements are reported by the other properties
+            self.classes["non_ub_disagreement_ignored"] = self.classes.get("non_ub_disagreement_ignored", 0) + 1
+            return
         v = {"detail": detail, "case": case, "cmd": cmd, "mode": mode, "sig": sig}
         for f in self.findings:
             if f.get("status") == "open" and f["property"] == self.prop and finding_matches(f, v):
